@@ -10,6 +10,7 @@
 import GitAiModel.Lemmas.Tracker
 import GitAiModel.Lemmas.TrackerRoundtrip
 import GitAiModel.Lemmas.TrackerIdentity
+import GitAiModel.Lemmas.TrackerMerge
 namespace GitAi.Tracker
 open GitAi
 
@@ -64,6 +65,92 @@ example :
             ⟨.insert, [32]⟩, ⟨.delete, [101, 108, 115, 101, 13, 10]⟩]
       [] [⟨0, 1, 0, 2, 0, 1⟩] [⟨0, 16, human, 1⟩] ['A'] 1
     = .ok [⟨0, 3, ['A'], 1⟩, ⟨3, 14, human, 1⟩] := by decide
+
+/-! ## 2b. Conservative: unchanged text keeps its authors, new text is the reporter's -/
+
+/-- **C16 unchanged_keeps_author (multiset form, before merge).** For every segment list
+    `pre ++ Equal d :: post`, all substantive ranges, all priors (any shape; `update` normalises
+    them first), all moves whose source starts inside its deletion (`SrcOk`, part of the move
+    contract checked on every real diff): after `transform`, byte `k` of the Equal segment is
+    covered by exactly the (author, ts) pairs — counted with multiplicity — that covered its
+    pre-image in the ORIGINAL prior list. -/
+theorem unchanged_keeps_author_multiset (pre post : List Seg) (d : Text) (subst : List (Nat × Nat))
+    (moves : List Move) (old : List Attr) (author : Str) (ts : Nat) (raw : List Attr)
+    (hsrc : SrcOk moves 0 (pre ++ ⟨.equal, d⟩ :: post))
+    (h : transform (pre ++ ⟨.equal, d⟩ :: post) subst moves (normalizeOld old) author ts = .ok raw) :
+    ∀ (w : Str × Nat) (k : Nat), k < d.length →
+      cov raw w ((newOf pre).length + k) = cov old w ((oldOf pre).length + k) := by
+  intro w k hk
+  rw [unchanged_transform pre post d subst moves _ author ts raw (normalizeOld_sortedStart old) hsrc h w k hk,
+    cov_normalizeOld]
+
+/-- **C16 unchanged_keeps_author (set form, final result).** After `update_attributions`
+    (transform + merge) the SET of (author, ts) covering an unchanged byte equals the set that
+    covered its pre-image. -/
+theorem unchanged_keeps_author (pre post : List Seg) (d : Text) (subst : List (Nat × Nat))
+    (moves : List Move) (old : List Attr) (author : Str) (ts : Nat) (out : List Attr)
+    (hsrc : SrcOk moves 0 (pre ++ ⟨.equal, d⟩ :: post))
+    (h : update (pre ++ ⟨.equal, d⟩ :: post) subst moves old author ts = .ok out) :
+    ∀ (w : Str × Nat) (k : Nat), k < d.length →
+      (Covered out w ((newOf pre).length + k) ↔ Covered old w ((oldOf pre).length + k)) := by
+  intro w k hk
+  simp only [update] at h
+  split at h
+  · cases h
+  · rename_i raw hraw
+    cases h
+    rw [merge_covered, ← cov_pos_iff, ← cov_pos_iff,
+      unchanged_keeps_author_multiset pre post d subst moves old author ts raw hsrc hraw w k hk]
+
+/-- non-vacuity of `SrcOk`: a 5-byte deletion with a move whose source is bytes [0, 5) -/
+example : SrcOk [⟨0, 0, 0, 5, 0, 5⟩] 0
+    [⟨.delete, [97, 10, 98, 10, 99]⟩, ⟨.equal, [120, 10]⟩, ⟨.insert, [97, 10, 98, 10, 99]⟩] := by
+  simp [SrcOk]
+
+/-- the hypothesis is needed: a move whose source starts beyond its deletion drags the cursor
+    past attributions of the following unchanged text, which then loses its author. -/
+theorem witness_src_outside_deletion :
+    update [⟨.delete, [97]⟩, ⟨.equal, [98, 99]⟩, ⟨.insert, [100]⟩] [] [⟨0, 0, 3, 4, 0, 1⟩]
+      [⟨1, 3, ['a', 'i'], 1⟩] ['r'] 2 = .ok [] := by decide
+
+/-- **C16 new_text_is_reporters.** A plain insertion (not the target of a move mapping) that
+    contains a newline or meets a substantive range is, after `update_attributions`, covered at
+    every byte by the reporter's (author, ts) and by no other pair. (Pure-whitespace inserts
+    without a newline inherit a neighbour's pair: `decideInsert`; parts of a moved-into
+    insertion outside the move targets are the reporter's: `gapAttrs_who`.) -/
+theorem new_text_is_reporters (pre post : List Seg) (d : Text) (subst : List (Nat × Nat))
+    (moves : List Move) (old : List Attr) (author : Str) (ts : Nat) (out : List Attr)
+    (hplain : rangesForInsertion moves (insCount pre) = none)
+    (hsub : hasNewline d = true ∨
+      rangesIntersect subst (newOf pre).length ((newOf pre).length + d.length) = true)
+    (h : update (pre ++ ⟨.insert, d⟩ :: post) subst moves old author ts = .ok out) :
+    ∀ p, (newOf pre).length ≤ p → p < (newOf pre).length + d.length →
+      Covered out (author, ts) p ∧ ∀ w, Covered out w p → w = (author, ts) := by
+  intro p hp1 hp2
+  simp only [update] at h
+  split at h
+  · cases h
+  · rename_i raw hraw
+    cases h
+    obtain ⟨hmem, hex⟩ := new_text_exact pre post d subst moves _ author ts raw hplain hsub hraw
+    constructor
+    · rw [merge_covered]
+      exact ⟨_, hmem, rfl, hp1, hp2⟩
+    · intro w hw
+      rw [merge_covered] at hw
+      obtain ⟨x, hx, hxw, h1, h2⟩ := hw
+      have := hex x hx p hp1 hp2 h1 h2
+      rw [this] at hxw
+      exact hxw.symm
+
+/-- non-vacuity: an inserted line between two unchanged lines, no moves -/
+example : rangesForInsertion [] (insCount [⟨.equal, [97, 10]⟩]) = none ∧ hasNewline [98, 10] = true := by decide
+
+/-- pure-whitespace insert without newline inherits (here: from the preceding range), so the
+    restriction to newline/substantive inserts is needed -/
+theorem witness_whitespace_inherits :
+    update [⟨.equal, [97]⟩, ⟨.insert, [32]⟩, ⟨.equal, [98]⟩] [] [] [⟨0, 2, ['o'], 1⟩] ['r'] 2
+      = .ok [⟨0, 3, ['o'], 1⟩] := by decide
 
 /-! ## 3. Line ↔ char round trip -/
 
@@ -165,6 +252,11 @@ theorem witness_identity_ts_tie :
 
 end GitAi.Tracker
 
+#print axioms GitAi.Tracker.unchanged_keeps_author_multiset
+#print axioms GitAi.Tracker.unchanged_keeps_author
+#print axioms GitAi.Tracker.witness_src_outside_deletion
+#print axioms GitAi.Tracker.new_text_is_reporters
+#print axioms GitAi.Tracker.witness_whitespace_inherits
 #print axioms GitAi.Tracker.line_char_roundtrip
 #print axioms GitAi.Tracker.witness_roundtrip_human
 #print axioms GitAi.Tracker.witness_roundtrip_overlap
